@@ -301,3 +301,24 @@ HARNESS(clr_i4_3) { clear_all<3, false>(K_i4_3); }
 HARNESS(clr_i4_3x) { clear_all<3, true>(K_i4_3); }
 HARNESS(clr_i16_5) { clear_all<5, true>(K_i16_5); }
 HARNESS(clr_2lvl) { clear_all<5, true>(K_2lvl); }
+
+// larger size classes with a hole left by a removal, then clear(): everything must be returned (concrete trees)
+template <unsigned N, unsigned DEL> static void clear_big() {
+  static db_t d;
+  (void)in_u8();
+  const std::uint64_t live00 = verif_live_allocs();
+  for (unsigned i = 0; i < N; i++) { std::uint8_t v = static_cast<std::uint8_t>(i); bool r = d.insert(B | (i * 3 + 1), vv(&v, 1)); PROP(r, "C10: prelude insert succeeds"); }
+  PROP(d.remove(B | (DEL * 3 + 1)), "C10: remove of a present key succeeds");
+  { std::uint64_t ks[MAXK]; std::uint8_t vl[MAXK]; (void)ks; (void)vl; }
+  const stats s1 = snap(d);
+  PROP(s1.leaves == N - 1, "C10: reported number of leaves equals the number of entries");
+  PROP(verif_live_allocs() == live00 + (N - 1) + 1, "C10: blocks held from the allocator match the reported nodes");
+  d.clear();
+  const stats s = snap(d);
+  PROP(s.mem == 0 && s.leaves == 0 && s.i4 == 0 && s.i16 == 0 && s.i48 == 0 && s.i256 == 0, "C10: a cleared index reports no nodes and no memory");
+  PROP(verif_live_allocs() == live00, "C10: clear() returns every block to the allocator");
+  WITNESS();
+}
+HARNESS(clr_i48_hole) { clear_big<20, 3>(); }
+HARNESS(clr_i48_hole_last) { clear_big<18, 17>(); }
+HARNESS(clr_i256_hole) { clear_big<52, 7>(); }
